@@ -10,7 +10,8 @@ use crate::gen::*;
 use crate::rng::Rng;
 use crate::run::*;
 use crate::world::*;
-use std::io::Read;
+use std::io::{Read, Write};
+use std::os::unix::fs::OpenOptionsExt;
 use std::path::PathBuf;
 use std::process::{Command, Stdio};
 use std::time::{Duration, Instant};
@@ -456,7 +457,7 @@ impl Property for C20 {
         true
     }
     fn rule(&self) -> &'static str {
-        "A scenario = the real jawk executable (release build of the working tree, guard off) run as child processes on a generated clean or noisy stream (occasionally > 16 KiB of output) x one of the four --on-error policies x a pipeline of any class x row separators with and without a newline x {valid configuration, configuration rejected by go, configuration rejected by clap}, with stdin/stdout/stderr on regular files in /dev/shm. Families: 'valid'/'invalid' (fault-free child vs in-process jawk::go for the same argv and input: fd 1 must carry exactly go's stdout sink, fd 2 exactly go's stderr sink plus, on failure, a message; exit status 0 iff go returned Ok); 'read-fault' / 'write-fault' / 'err-fault' (LD_PRELOAD shim fails read(0) / write(1) / write(2) at a seeded byte offset with EIO, ENOSPC, EPIPE, EAGAIN, EACCES..., sticky or recovering, after seeded EINTR and short transfers); 'transparent' (EINTR/short only); 'preset' (/dev/full, a pipe whose read end is closed, a pipe drained by the harness); 'file-read-fault' (1..3 real file arguments, optionally behind a directory argument, read(2) on one of them failing at a seeded offset: the shim interposes open/openat); 'dir-list-fault' (1..3 real files inside a directory argument, flat or one level down; the shim interposes opendir/readdir64/closedir and fails opendir or the k-th readdir64 of one directory: non-zero status, a message, stdout a prefix of the fault-free child's); 'stdin-preset' (fd 0 closed or a directory); 'stderr-preset' (/dev/full or closed pipe as standard error); 'missing-file'; 'info' (--version/--help); every child has a non-UTF-8 environment variable; invalid configurations also run with an unwritable standard error; noise is no failure (same configuration on the garbage-free stream). evaluations = child processes + in-process reference runs; non-trivial = a planned fault was delivered according to the shim's own event log, or diagnostics/rows had to be routed (noisy stream under stderr/stdout policy), or a hostile preset sink received output; distinct = distinct abstract traces (shim event kinds per fd, exit class, preset)."
+        "A scenario = the real jawk executable (release build of the working tree, guard off) run as child processes on a generated clean or noisy stream (occasionally > 16 KiB of output) x one of the four --on-error policies x a pipeline of any class x row separators with and without a newline x {valid configuration, configuration rejected by go, configuration rejected by clap}, with stdin/stdout/stderr on regular files in /dev/shm. Families: 'valid'/'invalid' (fault-free child vs in-process jawk::go for the same argv and input: fd 1 must carry exactly go's stdout sink, fd 2 exactly go's stderr sink plus, on failure, a message; exit status 0 iff go returned Ok); 'read-fault' / 'write-fault' / 'err-fault' (LD_PRELOAD shim fails read(0) / write(1) / write(2) at a seeded byte offset with EIO, ENOSPC, EPIPE, EAGAIN, EACCES..., sticky or recovering, after seeded EINTR and short transfers); 'transparent' (EINTR/short only); 'preset' (/dev/full, a pipe whose read end is closed, a pipe drained by the harness); 'file-read-fault' (1..3 real file arguments, optionally behind a directory argument, read(2) on one of them failing at a seeded offset: the shim interposes open/openat); 'dir-list-fault' (1..3 real files inside a directory argument, flat or one level down; the shim interposes opendir/readdir64/closedir and fails opendir or the k-th readdir64 of one directory: non-zero status, a message, stdout a prefix of the fault-free child's); 'special-file' (the null device among the file arguments, a named pipe that a writer fills and closes: the run must be the run on a regular file with the same bytes); 'stdin-preset' (fd 0 closed or a directory); 'stderr-preset' (/dev/full or closed pipe as standard error); 'missing-file'; 'info' (--version/--help); every child has a non-UTF-8 environment variable; invalid configurations also run with an unwritable standard error; noise is no failure (same configuration on the garbage-free stream). evaluations = child processes + in-process reference runs; non-trivial = a planned fault was delivered according to the shim's own event log, or diagnostics/rows had to be routed (noisy stream under stderr/stdout policy), or a hostile preset sink received output; distinct = distinct abstract traces (shim event kinds per fd, exit class, preset)."
     }
     fn assumptions(&self) -> Vec<String> {
         vec![
@@ -488,7 +489,8 @@ impl Property for C20 {
     }
 
     fn generate(&self, rng: &mut Rng, tier: Tier) -> Case {
-        let family = match rng.below(29) {
+        let family = match rng.below(30) {
+            29 => "special-file",
             27..=28 => "dir-list-fault",
             0..=4 => "valid",
             5..=6 => "invalid",
@@ -691,6 +693,12 @@ impl Property for C20 {
                 case.dirs = plans;
                 case.opts.retain(|o| !o.iter().any(|t| t.contains("&file-name")));
             }
+            "special-file" => {
+                // 0 = /dev/null alone, 1 = a real file then /dev/null, 2 = /dev/null then a real
+                // file, 3 = a named pipe that a writer fills with the stream and closes
+                case.set("special", rng.below(4) as i64);
+                case.opts.retain(|o| !o.iter().any(|t| t.contains('&')));
+            }
             "stdin-preset" => {
                 case.set("stdin", rng.range(1, 2) as i64);
             }
@@ -731,6 +739,7 @@ impl Property for C20 {
         match case.family.as_str() {
             "file-read-fault" => return check_file_fault(case, ctx),
             "dir-list-fault" => return check_dir_fault(case, ctx),
+            "special-file" => return check_special_file(case, ctx),
             "stdin-preset" => return check_stdin_preset(case, ctx),
             "missing-file" => return check_missing_file(case, ctx),
             "info" => return check_info(case, ctx),
@@ -1427,6 +1436,79 @@ fn check_missing_file(case: &Case, ctx: &mut Ctx) -> Option<Violation> {
         return viol(
             "C20.rows-on-stdout",
             format!("missing file argument: standard output is not a prefix of the output for the existing file: {} vs {}", show(&r.out), show(&f.out)),
+        );
+    }
+    None
+}
+
+/// File arguments that exist and are neither regular files nor directories - the null
+/// device, a named pipe: inputs like any other. The run must be the run on a regular file
+/// with the same bytes.
+fn check_special_file(case: &Case, ctx: &mut Ctx) -> Option<Violation> {
+    let input = case.stream();
+    let paths = ctx.fresh_paths(2);
+    let real = paths[0].clone();
+    // reference: the stream (or nothing) in one regular file
+    let which = case.param("special");
+    let ref_bytes: Vec<u8> = if which == 0 { Vec::new() } else { input.clone() };
+    let mut cfg = Cfg::plain();
+    cfg.files = vec![ref_bytes];
+    let f = try_spawn!(ctx, spawn_cfg(case, b"", &cfg, &[real.clone()], ctx));
+    if f.timed_out || f.status.is_none() {
+        return viol("C20.hang", format!("child on one regular file: {}", f.describe()));
+    }
+    let fifo = format!("{}.fifo", paths[1]);
+    let args: Vec<String> = match which {
+        0 => vec!["/dev/null".into()],
+        1 => vec![real.clone(), "/dev/null".into()],
+        2 => vec!["/dev/null".into(), real.clone()],
+        _ => vec![fifo.clone()],
+    };
+    let mut writer = None;
+    if which == 3 {
+        let Ok(c) = std::ffi::CString::new(fifo.clone()) else { return None };
+        // SAFETY: mkfifo with a valid NUL-terminated path
+        if unsafe { libc::mkfifo(c.as_ptr(), 0o600) } != 0 {
+            ctx.harness_error = Some("cannot create a named pipe".into());
+            return None;
+        }
+        let (p, data) = (fifo.clone(), input.clone());
+        writer = Some(std::thread::spawn(move || {
+            // (opening blocks until jawk opens the other end; a jawk that never does is
+            // released by the harness opening it for reading below)
+            if let Ok(mut w) = std::fs::OpenOptions::new().write(true).open(&p) {
+                let _ = w.write_all(&data);
+            }
+        }));
+    } else if std::fs::write(&real, &input).is_err() {
+        ctx.harness_error = Some("cannot write input file".into());
+        return None;
+    }
+    let mut c2 = case.clone();
+    c2.opts.push(std::iter::once("--".to_string()).chain(args.iter().cloned()).collect());
+    let r = try_spawn!(ctx, spawn_cfg(&c2, b"", &Cfg::plain(), &[], ctx));
+    let _ = std::fs::remove_file(&real);
+    if let Some(h) = writer {
+        // release a writer that is still waiting for a reader
+        let _ = std::fs::OpenOptions::new().read(true).custom_flags(libc::O_NONBLOCK).open(&fifo);
+        let _ = h.join();
+        let _ = std::fs::remove_file(&fifo);
+    }
+    ctx.stats.nontrivial = true;
+    ctx.stats.fault(if which == 3 { "input.named-pipe-argument" } else { "input.null-device-argument" }, 1);
+    if r.timed_out {
+        return viol("C20.hang", format!("child with a special file argument did not finish: {}", r.describe()));
+    }
+    let names: Vec<String> = vec![real, fifo, "/dev/null".into()];
+    if r.status != f.status || strip_paths(&r.out, &names) != strip_paths(&f.out, &names) {
+        return viol(
+            if f.status == Some(0) { "C20.exit-ok" } else { "C20.exit-fail" },
+            format!(
+                "file arguments {:?} (special {which}): the run differs from the run on a regular file with the same bytes: {} vs {}",
+                args,
+                r.describe(),
+                f.describe()
+            ),
         );
     }
     None
